@@ -250,3 +250,17 @@ def unmodelled_char(ch, case=True):
 
 def unmodelled_text(*texts, case=True):
     return any(unmodelled_char(ch, case) for t in texts if t for ch in t)
+
+
+def compare_alternatives(dom, c, line, ml):
+    """the model may report two outcomes `A ~~ B` when the code's result depends on the rounding of two exactly tied double scores
+    (stylesheet fuzzy matching, see CA.findBest): the implementation must agree with one of them"""
+    def one(m):
+        if hasattr(dom, 'compare'): return dom.compare(c, line, m)
+        if isinstance(c.get('s'), str) and unmodelled_text(c['s']): return None
+        return line == m
+    if ' ~~ ' not in ml: return one(ml)
+    rs = [one(m) for m in ml.split(' ~~ ')]
+    if any(r is True for r in rs): return True
+    if any(r is None for r in rs): return None
+    return False
